@@ -2611,7 +2611,7 @@ static Node *new_sub(Node *lhs, Node *rhs, Token *tok) {
     return new_binary(ND_SUB, lhs, rhs, tok);
 
   // VLA + num
-  if (lhs->ty->base && lhs->ty->base->kind == TY_VLA) {
+  if (lhs->ty->base && lhs->ty->base->kind == TY_VLA && is_integer(rhs->ty)) {
     rhs = new_binary(ND_MUL, rhs, new_var_node(lhs->ty->base->vla_size, tok), tok);
     add_type(rhs);
     Node *node = new_binary(ND_SUB, lhs, rhs, tok);
@@ -2632,7 +2632,11 @@ static Node *new_sub(Node *lhs, Node *rhs, Token *tok) {
   if (lhs->ty->base && rhs->ty->base) {
     Node *node = new_binary(ND_SUB, lhs, rhs, tok);
     node->ty = ty_long;
-    return new_binary(ND_DIV, node, new_num(lhs->ty->base->size, tok), tok);
+    // The size of a VLA element is known at run time only.
+    Node *sz = new_num(lhs->ty->base->size, tok);
+    if (lhs->ty->base->kind == TY_VLA)
+      sz = new_cast(new_var_node(lhs->ty->base->vla_size, tok), ty_long);
+    return new_binary(ND_DIV, node, sz, tok);
   }
 
   error_tok(tok, "invalid operands");
